@@ -123,7 +123,9 @@ ObsStep(e) ==
 
 NoBad(id) == id \notin bad
 C01 == NoBad("C01")
-C11 == NoBad("C11")
+\* C11: step checks, plus: once the channel is closed (explicitly or by the last handle of a side)
+\* every pending future has been woken
+C11 == NoBad("C11") /\ (oClosed => \A f \in OPending : oWoken[f])
 \* C13: step checks, plus: a pending receiver for which something newer was
 \* published, or whose channel was closed, has been woken
 C13 == NoBad("C13") /\ \A f \in OPending : (Deliverable(oWant[f]) \/ oClosed) => oWoken[f]
